@@ -6,15 +6,17 @@ MODE-FREE trace: a tree of events in the code's order (`pass`, `fail e fatal`, `
 for property/item visits whose errors are re-located, `wrap e sub` for composition children whose
 errors survive only as Origin, `panic`). The three validation modes are non-recursive folds of
 that tree (`firstErr` = default, `failfast` = default without the error, `collect` = multi-error).
-Proved here, for every trace:
-  * mode_independent   : no panic ⇒ (report m t).isOk = passesL t   for all three modes
-  * pointers_located   : located trace ⇒ every reported error's JSON pointer resolves to the value
-                         it quotes (or, for a missing required property, to the enclosing object)
-  * modes_differ_on_panic : witness of finding #4 (multi-error mode reaches a panicking site that
-                         default mode never executes)
-What remains for the real model is the recursive generator `events : Schema → Json → List Ev`
-(mirroring visitJSON) with `locatedL v (events s v)`.
-Lean 4.33.0, core only, ≈ 3 s; axioms: propext, Quot.sound.
+Proved here:
+  for every trace
+  * mode_independent      : no panic ⇒ (report m t).isOk = passesL t   for all three modes
+  * pointers_located      : located trace ⇒ every reported error's JSON pointer resolves to the value
+                            it quotes (or, for a missing required property, to the enclosing object)
+  * modes_differ_on_panic : witness of finding #4
+  for the recursive trace generator `events : S → J → List Ev` of a schema fragment (type, minimum,
+  maximum, minLength, required, properties, items, allOf; well-founded on (value, schema))
+  * events_located        : object keys distinct ⇒ locatedL v (events s v)      (events.mutual_induct)
+  * pointers_located_visit: hence every error reported for (s, v) in any mode is located in v
+Lean 4.33.0, core only, ≈ 5 s; axioms: propext, Quot.sound.
 -/
 namespace E
 
@@ -382,5 +384,222 @@ theorem pointers_located (v : J) (t : List Ev) (h : locatedL v t) (m : Mode) :
         simp only [Res.errs]
         exact collect_located v t [] h (by simp) _ hc
 
+
 #print axioms pointers_located
+
+/-! ### The trace generator for a schema fragment, and `locatedL v (events s v)` -/
+
+def Kw.permits (kw : Kw) (t : Ty) : Bool := match kw.type with | none => true | some t' => t = t'
+
+def here (field : String) (v : J) : Err := { field := field, rpath := [], value := v }
+
+/-- one keyword check: fail (quoting the visited value) or pass -/
+def chk (v : J) (bad : Bool) (field : String) (fatal : Bool) : Ev :=
+  if bad then .fail (here field v) fatal else .pass
+
+/-- the leaf keyword checks of one schema on one value, as data, in the code's order;
+    a type mismatch is fatal (the Go code returns at once in every mode) -/
+def leafChecks (kw : Kw) : J → List (Bool × String × Bool)
+  | .null => [(true, "nullable", true)]
+  | .bool _ => []
+  | .num q =>
+    [(!(kw.permits .number), "type", true),
+     ((match kw.minimum with | some mn => decide (q < mn) | none => false), "minimum", false),
+     ((match kw.maximum with | some mx => decide (mx < q) | none => false), "maximum", false)]
+  | .str s => [(!(kw.permits .string), "type", true), (decide (s.length < kw.minLength), "minLength", false)]
+  | .arr _ => [(!(kw.permits .array), "type", true)]
+  | .obj _ => [(!(kw.permits .object), "type", true)]
+
+def leafEvs (kw : Kw) (v : J) : List Ev := (leafChecks kw v).map (fun c => chk v c.1 c.2.1 c.2.2)
+
+def reqEvs (v : J) (kvs : List (List Char × J)) : List (List Char) → List Ev
+  | [] => []
+  | k :: ks =>
+    (if (lookup k kvs).isNone then .fail (mark (.key k) (here "required" v)) false else .pass) :: reqEvs v kvs ks
+
+mutual
+def events : S → J → List Ev
+  | .mk kw allOf items props, v =>
+    allOfEvs allOf v ++ leafEvs kw v ++
+    (match v with
+     | .arr xs => (match items with | none => [] | some s => itemsEvs s xs 0)
+     | .obj kvs => propsEvs props kvs ++ reqEvs v kvs kw.required
+     | _ => [])
+termination_by s v => (sizeOf v, sizeOf s)
+def allOfEvs : List S → J → List Ev
+  | [], _ => []
+  | s :: ss, v => .wrap (here "allOf" v) (events s v) :: allOfEvs ss v
+termination_by ss v => (sizeOf v, sizeOf ss)
+def itemsEvs : S → List J → Nat → List Ev
+  | _, [], _ => []
+  | s, x :: xs, i => .child (.idx i) (events s x) :: itemsEvs s xs (i + 1)
+termination_by s xs _ => (sizeOf xs, sizeOf s)
+def propsEvs : List (List Char × S) → List (List Char × J) → List Ev
+  | _, [] => []
+  | p, (k, x) :: r =>
+    (match lookup k p with
+     | some s => .child (.key k) (events s x)
+     | none => .pass) :: propsEvs p r
+termination_by p kvs => (sizeOf kvs, sizeOf p)
+end
+
+theorem loc_here (field : String) (v : J) : Loc v (here field v) := by
+  left; simp [here, Err.pointer, resolve]
+
+theorem loc_required (k : List Char) (v : J) : Loc v (mark (.key k) (here "required" v)) := by
+  right
+  refine ⟨by simp [mark, here], [], .key k, ?_, ?_⟩
+  · simp [mark, here, Err.pointer]
+  · simp [mark, here, resolve]
+
+theorem locatedL_append {v : J} {a b : List Ev} (ha : locatedL v a) (hb : locatedL v b) : locatedL v (a ++ b) := by
+  induction a with
+  | nil => simpa using hb
+  | cons e es ih => simp only [List.cons_append, locatedL] at *; exact ⟨ha.1, ih ha.2⟩
+
+theorem chk_located (v : J) (bad : Bool) (field : String) (fatal : Bool) : (chk v bad field fatal).located v := by
+  unfold chk; split <;> simp [Ev.located, loc_here]
+
+theorem map_chk_located (v : J) (cs : List (Bool × String × Bool)) :
+    locatedL v (cs.map (fun c => chk v c.1 c.2.1 c.2.2)) := by
+  induction cs with
+  | nil => simp [locatedL]
+  | cons c cs ih => simp only [List.map_cons, locatedL]; exact ⟨chk_located _ _ _ _, ih⟩
+
+theorem leafEvs_located (kw : Kw) (v : J) : locatedL v (leafEvs kw v) := map_chk_located v _
+
+theorem reqEvs_located (v : J) (kvs : List (List Char × J)) (ks : List (List Char)) : locatedL v (reqEvs v kvs ks) := by
+  induction ks with
+  | nil => simp [reqEvs, locatedL]
+  | cons k ks ih =>
+    simp only [reqEvs, locatedL]
+    refine ⟨?_, ih⟩
+    split <;> simp [Ev.located, loc_required]
+
+/-- object keys distinct at every level (Go maps) -/
+def keysOf : List (List Char × J) → List (List Char)
+  | [] => []
+  | (k, _) :: r => k :: keysOf r
+
+theorem lookup_of_mem_nodup : ∀ (kvs : List (List Char × J)) (k : List Char) (x : J),
+    (keysOf kvs).Nodup → (k, x) ∈ kvs → lookup k kvs = some x
+  | [], _, _, _, h => by simp at h
+  | (k', x') :: r, k, x, hn, h => by
+    simp only [keysOf, List.nodup_cons] at hn
+    simp only [List.mem_cons, Prod.mk.injEq] at h
+    rcases h with ⟨rfl, rfl⟩ | h
+    · simp [lookup]
+    · have hne : k ≠ k' := by
+        intro e; subst e
+        apply hn.1
+        clear hn
+        induction r with
+        | nil => simp at h
+        | cons kv r ih =>
+          obtain ⟨a, b⟩ := kv
+          simp only [List.mem_cons, Prod.mk.injEq] at h
+          rcases h with ⟨rfl, rfl⟩ | h
+          · simp [keysOf]
+          · simp [keysOf, ih h]
+      simp [lookup, hne, lookup_of_mem_nodup r k x hn.2 h]
+
+
+mutual
+def WFJ : J → Prop
+  | .arr xs => WFJL xs
+  | .obj kvs => (keysOf kvs).Nodup ∧ WFJP kvs
+  | _ => True
+def WFJL : List J → Prop
+  | [] => True
+  | x :: xs => WFJ x ∧ WFJL xs
+def WFJP : List (List Char × J) → Prop
+  | [] => True
+  | (_, x) :: r => WFJ x ∧ WFJP r
+end
+
+theorem wfjl_mem {xs : List J} (h : WFJL xs) : ∀ x ∈ xs, WFJ x := by
+  induction xs with
+  | nil => simp
+  | cons a r ih => simp only [WFJL] at h; intro x hx; simp at hx; rcases hx with rfl | hx; exact h.1; exact ih h.2 x hx
+
+theorem wfjp_mem {kvs : List (List Char × J)} (h : WFJP kvs) : ∀ kx ∈ kvs, WFJ kx.2 := by
+  induction kvs with
+  | nil => simp
+  | cons a r ih =>
+    obtain ⟨k, x⟩ := a
+    simp only [WFJP] at h
+    intro kx hkx; simp at hkx; rcases hkx with rfl | hkx
+    · exact h.1
+    · exact ih h.2 kx hkx
+
+/-- the trace of a schema visit is located in the visited value (object keys distinct, as in Go maps) -/
+theorem events_located :
+    (∀ s v, WFJ v → locatedL v (events s v)) ∧
+    (∀ p r, ∀ (all : List (List Char × J)), (∀ kx ∈ r, lookup kx.1 all = some kx.2) → (∀ kx ∈ r, WFJ kx.2) →
+        locatedL (.obj all) (propsEvs p r)) ∧
+    (∀ s xs i, ∀ (all : List J), (∀ j, xs[j]? = all[i + j]?) → (∀ x ∈ xs, WFJ x) →
+        locatedL (.arr all) (itemsEvs s xs i)) ∧
+    (∀ ss v, WFJ v → locatedL v (allOfEvs ss v)) := by
+  refine events.mutual_induct
+    (motive1 := fun s v => WFJ v → locatedL v (events s v))
+    (motive2 := fun p r => ∀ (all : List (List Char × J)), (∀ kx ∈ r, lookup kx.1 all = some kx.2) → (∀ kx ∈ r, WFJ kx.2) →
+        locatedL (.obj all) (propsEvs p r))
+    (motive3 := fun s xs i => ∀ (all : List J), (∀ j, xs[j]? = all[i + j]?) → (∀ x ∈ xs, WFJ x) →
+        locatedL (.arr all) (itemsEvs s xs i))
+    (motive4 := fun ss v => WFJ v → locatedL v (allOfEvs ss v))
+    ?node ?pnil ?pcons ?inil ?icons ?anil ?acons
+  case node =>
+    intro kw allOf items props v ihA ihC hwf
+    rw [events.eq_def]
+    simp only
+    refine locatedL_append (locatedL_append (ihA hwf) (leafEvs_located kw v)) ?_
+    cases v with
+    | arr xs =>
+      cases items with
+      | none => simp [locatedL]
+      | some s =>
+        simp only at ihC ⊢
+        exact ihC xs (by intro j; simp) (wfjl_mem (by simpa [WFJ] using hwf))
+    | obj kvs =>
+      simp only at ihC ⊢
+      have hw : (keysOf kvs).Nodup ∧ WFJP kvs := by simpa [WFJ] using hwf
+      refine locatedL_append (ihC kvs ?_ (wfjp_mem hw.2)) (reqEvs_located _ _ _)
+      intro kx hkx
+      exact lookup_of_mem_nodup kvs kx.1 kx.2 hw.1 (by simpa using hkx)
+    | null => simp [locatedL]
+    | bool b => simp [locatedL]
+    | num q => simp [locatedL]
+    | str x => simp [locatedL]
+  case pnil => intro p all _ _; simp [propsEvs, locatedL]
+  case pcons =>
+    intro p k x r ih1 ih2 all hall hwf
+    rw [propsEvs.eq_def]
+    simp only [locatedL]
+    refine ⟨?_, ih2 all (fun kx h => hall kx (by simp [h])) (fun kx h => hwf kx (by simp [h]))⟩
+    cases hl : lookup k p with
+    | none => simp [Ev.located]
+    | some s =>
+      simp only [Ev.located]
+      exact ⟨x, by simpa [resolve1] using hall (k, x) (by simp), ih1 s (hwf (k, x) (by simp))⟩
+  case inil => intro s i all _ _; simp [itemsEvs, locatedL]
+  case icons =>
+    intro s x xs i ih1 ih2 all hall hwf
+    rw [itemsEvs.eq_def]
+    simp only [locatedL, Ev.located]
+    refine ⟨⟨x, ?_, ih1 (hwf x (by simp))⟩, ih2 all ?_ (fun y hy => hwf y (by simp [hy]))⟩
+    · have := hall 0; simp at this; simp [resolve1, ← this]
+    · intro j; have := hall (j + 1); simp at this; rw [this]; congr 1; omega
+  case anil => intro v _; simp [allOfEvs, locatedL]
+  case acons =>
+    intro s ss v ih1 ih2 hwf
+    rw [allOfEvs.eq_def]
+    simp only [locatedL, Ev.located]
+    exact ⟨loc_here _ _, ih2 hwf⟩
+
+/-- C12, second sentence, for the fragment: every error reported in any mode points at the value it quotes -/
+theorem pointers_located_visit (s : S) (v : J) (hwf : WFJ v) (m : Mode) :
+    ∀ e ∈ (report m (events s v)).errs, Loc v e :=
+  pointers_located v (events s v) (events_located.1 s v hwf) m
+
+#print axioms pointers_located_visit
 end E
